@@ -7,7 +7,7 @@ ids=${@:-$(ls seeded)}
 for id in $ids; do
   prop=$(/venv/bin/python -c "import json;print(json.load(open('seeded/$id/meta.json'))['breaks_property'])")
   [ -z "$(git -C /repo status --porcelain)" ] || { echo "/repo not clean"; exit 2; }
-  git -C /repo apply seeded/$id/patch.diff 2>/dev/null || { echo "$id: patch does not apply"; continue; }
+  git -C /repo apply /verif/seeded/$id/patch.diff 2>/dev/null || { echo "$id: patch does not apply"; continue; }
   out=$(VERIF_SEED=${VERIF_SEED:-0} ./check $prop 2>&1); rc=$?
   git -C /repo checkout -- .
   v=$(echo "$out" | grep -c '^VIOLATION')
